@@ -25,7 +25,8 @@ type PropDef struct {
 	Judge func(sc *Scenario, rr *RunResult, env *core.Env) (sig, msg string)
 	// Nontrivial reports whether the run counts towards distinct_nontrivial.
 	Nontrivial func(sc *Scenario, rr *RunResult) bool
-	// Shrink lists candidate simplifications of the scenario (optional).
+	// Runner replaces the world runner for scenarios that need their own bubble.
+	Runner      func(t *testing.T, sc *Scenario, tape *core.Tape, j *core.Journal, keep bool) *RunResult
 	ReplayExact func(sc *Scenario) bool
 }
 
@@ -71,7 +72,7 @@ func (e *Engine) Run(env *core.Env, run int, res *core.Result) *core.Violation {
 	c := &core.Case{Property: env.Property, Engine: "e1", Seed: env.Seed, Run: run, Body: body, GenTape: true, ReplayExact: true}
 	env.J.Begin(c)
 	tape := core.NewGenTape(core.NewRand(tapeSeed(env, run)))
-	rr := RunScenario(e.T, sc, tape, env.J, false)
+	rr := runWith(def, e.T, sc, tape, env.J, false)
 	env.J.Done()
 	sig, msg := judge(def, sc, rr, env)
 	account(def, sc, rr, res, run)
@@ -93,6 +94,13 @@ func (e *Engine) Run(env *core.Env, run int, res *core.Result) *core.Violation {
 	}
 	c.Trace = tail(rr.Trace, 80)
 	return &core.Violation{Signature: sig, Message: msg, Case: c}
+}
+
+func runWith(def *PropDef, t *testing.T, sc *Scenario, tape *core.Tape, j *core.Journal, keep bool) *RunResult {
+	if def.Runner != nil {
+		return def.Runner(t, sc, tape, j, keep)
+	}
+	return RunScenario(t, sc, tape, j, keep)
 }
 
 func tail(s []string, n int) []string {
@@ -188,8 +196,22 @@ func judge(def *PropDef, sc *Scenario, rr *RunResult, env *core.Env) (string, st
 	if rr.LockLeak != "" {
 		return p + "/lock-leak/" + stuckClass(rr), "a command returned while still holding a lock: " + rr.LockLeak
 	}
-	if rr.Invariant != "" && !strings.Contains(rr.Invariant, "deadline recorded for key") {
+	if rr.Invariant != "" && !strings.Contains(rr.Invariant, "deadline recorded for key") && !strings.HasPrefix(rr.Invariant, "C02/") {
 		return p + "/structure/" + invariantClass(rr.Invariant), rr.Invariant
+	}
+	for i, c := range rr.Clients {
+		if c.malformed != "" {
+			// the reply stream of this connection stopped being RESP: blame the
+			// last command whose reply was being read
+			blame := "none"
+			cmd := ""
+			if c.lastDone != nil {
+				blame, cmd = c04Class(c.lastDone.Args), cmdString(c.lastDone.Args)
+			} else if len(c.waiting) > 0 {
+				blame, cmd = c04Class(c.waiting[0].Args), cmdString(c.waiting[0].Args)
+			}
+			return "C03/reply-not-resp/" + blame, fmt.Sprintf("client %d: after %s: %s", i, cmd, c.malformed)
+		}
 	}
 	if def.Judge != nil {
 		if sig, msg := def.Judge(sc, rr, env); sig != "" {
@@ -201,11 +223,6 @@ func judge(def *PropDef, sc *Scenario, rr *RunResult, env *core.Env) (string, st
 	}
 	if rr.StepLimit {
 		return p + "/harness-step-limit", fmt.Sprintf("run did not finish within %d steps: %s", rr.Steps, waitingCmds(rr))
-	}
-	for i, c := range rr.Clients {
-		if c.malformed != "" {
-			return p + "/reply-not-resp/" + lastCmdClass(c), fmt.Sprintf("client %d: %s", i, c.malformed)
-		}
 	}
 	return "", ""
 }
@@ -292,7 +309,7 @@ func (e *Engine) Replay(env *core.Env, c *core.Case) (string, string, []string) 
 		tape = core.NewReplayTape(c.Tape)
 	}
 	env.J.Begin(c)
-	rr := RunScenario(e.T, sc, tape, env.J, true)
+	rr := runWith(def, e.T, sc, tape, env.J, true)
 	sig, msg := judge(def, sc, rr, env)
 	return sig, msg, tail(rr.Trace, 120)
 }
@@ -313,7 +330,7 @@ func (e *Engine) Minimise(env *core.Env, c *core.Case) *core.Case {
 		}
 		budget--
 		cp := cloneScenario(s)
-		rr := RunScenario(e.T, cp, core.NewReplayTape(tape), nil, false)
+		rr := runWith(def, e.T, cp, core.NewReplayTape(tape), nil, false)
 		sig, _ := judge(def, cp, rr, env)
 		return sig == c.Signature
 	}
@@ -363,7 +380,7 @@ func (e *Engine) Minimise(env *core.Env, c *core.Case) *core.Case {
 	out.Body = body
 	out.Tape = tape
 	out.Minimised = true
-	rr := RunScenario(e.T, cloneScenario(sc), core.NewReplayTape(tape), nil, true)
+	rr := runWith(def, e.T, cloneScenario(sc), core.NewReplayTape(tape), nil, true)
 	sig, msg := judge(def, sc, rr, env)
 	if sig != c.Signature {
 		return c
